@@ -23,20 +23,6 @@ pub proof fn axiom_lits()
 }
 pub open spec fn is_esc_status(st: ParseStatus) -> bool { st is HasEscaped }
 
-pub proof fn lemma_has_bs_extend(s: Seq<u8>, i0: int, a: int, b: int)
-    requires i0 <= a <= b <= s.len(), 0 <= i0, forall|j: int| a <= j < b ==> #[trigger] s[j] != 0x5c,
-    ensures has_bs(s, i0, a) == has_bs(s, i0, b),
-{
-    if has_bs(s, i0, b) {
-        let j = choose|j: int| i0 <= j < b && 0 <= j < s.len() && s[j] == 0x5c;
-        assert(j < a);
-    }
-}
-pub proof fn lemma_has_bs_witness(s: Seq<u8>, i0: int, j: int, e: int)
-    requires 0 <= i0 <= j < e <= s.len(), s[j] == 0x5c,
-    ensures has_bs(s, i0, e),
-{ }
-
 impl<'de, R: Reader<'de>> Parser<R> {
 //@extract file=src/parser.rs impl="Parser<R>" fn=skip_escaped_chars
 //@attr
